@@ -37,7 +37,12 @@ RULE = ('per function: a grid of special points (0, +-1, +-1/2, +-2, the floats 
         'TAN=SIN/COS, COT=1/TAN, EXP(LN x), LOG(x,b)=LN x/LN b, f(f^-1 y)=y and f^-1(f x)=x on the principal ranges, '
         'DEGREES(RADIANS x), the angle of ATAN2) are evaluated through real formulas with the argument bound to a '
         'variable. PV: rate in (-1, 10] incl. 0 and |rate| >= 1e-4, integer and fractional periods, type in {0,1}, '
-        'optional arguments omitted / blank. RAND and RANDBETWEEN(a,b) (integer a <= b, also as text / logical): '
+        'optional arguments omitted / blank. The integer-overflow guard of POWER and PV (two Python ints - logicals and '
+        'integer text count - with |base| >= 2, exponent >= 1 and (bit_length(|base|)-1)*exponent >= 1024 give #NUM! at once): '
+        'for every bit length 2..70 of the base (and bases up to 10^400, both signs) the smallest exponent that meets it and '
+        'the one below, exponents up to 10^18, bases 0 / 1 / -1 with huge exponents, float twins of the same arguments '
+        '(which must NOT meet it); PV with integer rate (growth 1+rate of either sign) x integer periods on both sides of '
+        'the bound. RAND and RANDBETWEEN(a,b) (integer a <= b, also as text / logical): '
         'many draws. Non-trivial = the implementation returned a finite number (for a random case: at least two '
         'distinct draws or a one-point range); distinct = distinct case dict.')
 TRUSTED = ['L3 is not proved: libm (sin, cos, tan, asin, acos, atan, atan2, sinh, cosh, tanh, asinh, acosh, atanh, sqrt, log, '
@@ -47,7 +52,9 @@ TRUSTED = ['L3 is not proved: libm (sin, cos, tan, asin, acos, atan, atan2, sinh
            'conventions written by hand (math_1: NaN from non-NaN / inf from finite = exception; m_log; float_pow)',
            'random.random / random.randint obey their documented contracts (hypotheses of rand_range / randbetween_range)',
            'Python ints are compared with the model up to 2^53 in the hand-composed functions (ACOT, ACOTH, POWER, PV; '
-           'exact big-int arithmetic is not modelled) and up to 10^30 elsewhere; numeric text is compared in the decimal '
+           'exact big-int arithmetic is not modelled) and up to 10^30 elsewhere - except POWER on two ints with a '
+           'non-negative exponent, which is compared exactly at every size (driver op math.powint: the guard, the exact '
+           'power, the OverflowError of float()); numeric text is compared in the decimal '
            'forms the model reads (no exponent, inside the float range)',
            'PV with 1+rate < 0 and a non-integral number of periods returns a Python complex number; the model says #ERROR! '
            '(outside the statement\'s rate > -1; not generated)']
@@ -979,6 +986,64 @@ def gen_fn_cases(rng, n_rand):
     return out
 
 
+def _bits(x):
+    return abs(x).bit_length()
+
+
+def gen_guard_cases(rng, n):
+    """the integer-overflow guard of POWER and PV: both sides of `(bit_length(|x|) - 1) * y >= 1024`"""
+    out = []
+
+    def power(a, b):
+        out.append(fn_case('POWER', [a, b]))
+        if all(isinstance(v, int) and not isinstance(v, bool) for v in (a, b)) and b >= 0:
+            out.append({'kind': 'powint', 'name': 'POWER', 'args': [a, b]})
+
+    def pv(*args):
+        out.append({'kind': 'pv', 'name': 'PV', 'args': list(args)})
+    fixed = [(2, 1024), (2, 1023), (3, 1024), (3, 1023), (4, 512), (4, 511), (-2, 1024), (-2, 1023), (-2, 1025), (-3, 1024),
+             (5, 512), (5, 511), (255, 147), (255, 146), (256, 128), (256, 127), (2 ** 53, 20), (2 ** 53, 19), (10, 308),
+             (10, 309), (10, 341), (10, 342), (2, 10 ** 15), (-3, 10 ** 15 + 1), (7, 10 ** 18), (2, 2 ** 53), (36, 10 ** 15),
+             (1, 10 ** 15), (-1, 10 ** 15 + 1), (-1, 10 ** 15), (0, 10 ** 15), (0, 1), (2, 0), (2 ** 60, 0), (2, -1024), (2, -5000),
+             (10 ** 400, 1), (-10 ** 400, 1), (10 ** 400, 0), (2 ** 1024, 1), (-2 ** 1024, 1), (2 ** 1024 - 1, 1), (2 ** 1023, 1),
+             (10 ** 308, 1), (2 ** 512, 2), (2 ** 512 - 1, 2), (-2 ** 512, 2), (10 ** 154, 2), (10 ** 155, 2), (2 ** 341, 3),
+             (2 ** 342, 3), (10 ** 30, 34), (10 ** 30, 35)]
+    for a, b in fixed:
+        power(a, b)
+    # logicals and integer text are Python ints for the guard; floats (even integral ones) are not
+    for a, b in [('2', '1024'), ('2', 1024), (2, '1024'), (' 2 ', '1_024'), ('2', '1023'), (True, 10 ** 15), (False, 10 ** 15),
+                 (2, True), (2.0, 1024), (2, 1024.0), (2.0, 1024.0), ('2.0', '1024'), (2, '1024.0'), (2.0, 1023), (2, 1023.0),
+                 (-2.0, 1025), (4.0, 512), (0.5, -1024), (0.5, -1080)]:
+        power(a, b)
+    pv_fixed = [(1, 1024, 1), (1, 1023, 1), (1, 1024, -100, 0, 1), (1, 2000, -100, 50, 1), (3, 512, 1), (3, 511, 1), (2, 1000, 1),
+                (2, 1024, 1), (2, 1023, 1), (2, 646, 1), (-3, 1024, 1), (-3, 1023, 1), (-3, 1025, 1), (-4, 1024, 1), (-4, 1023, 1),
+                (True, 1024, 1), (True, 1023, 1), ('1', '1024', 1), ('1', '1023', '1'), (1.0, 1024, 1), (1, 1024.0, 1),
+                (1.0, 1023, 1), (1, 1023.0, 1), (35, 10 ** 15, 1), (1, 10 ** 15, 1), (-3, 10 ** 15, 1), (0, 10 ** 15, 1),
+                (0, 10 ** 15, 1, 5), (-2, 10 ** 15, 1), (-2, 10 ** 15 + 1, 1), (-1, 10 ** 15, 1), (1, 0, 1), (1, -1000, 1),
+                (1, -5000, 1), (255, 147, 1), (255, 146, 1), (2 ** 20 - 1, 52, 1), (2 ** 20 - 1, 51, 1), (1, 1024, 'x'),
+                (1, 1024, {'e': '#N/A'}), (1, 1024, 1, 10 ** 400), (1, 1024), (9, 400, 1), (9, 341, 1), (9, 342, 1)]
+    for args in pv_fixed:
+        pv(*args)
+    for L in list(range(1, 70)) + [rng.randint(70, 1200) for _ in range(n)]:
+        # a base of bit length L + 1 (either sign); y0 = the smallest exponent that meets the guard
+        base = rng.choice([1 << L, (1 << (L + 1)) - 1, rng.randint(1 << L, (1 << (L + 1)) - 1)])
+        y0 = -(-1024 // L)
+        sg = rng.choice([1, 1, -1])
+        power(sg * base, y0)
+        power(sg * base, y0 - 1)
+        if L <= 52:
+            power(float(sg * base), y0)
+            # PV: growth = 1 + rate = sg * base; payment 1, type 0: no float overflow apart from the growth factor itself
+            pv(sg * base - 1, y0, 1)
+            pv(sg * base - 1, y0 - 1, 1)
+            pv(sg * base - 1, y0 + rng.randint(1, 10 ** 6), rng.randint(-1000, 1000), rng.randint(-1000, 1000), rng.choice([0, 1]))
+    for _ in range(n):
+        a = rng.choice([rng.randint(-40, 40), rng.randint(-10 ** 6, 10 ** 6), rng.randint(2, 2 ** 53)])
+        b = rng.choice([rng.randint(0, 1200), rng.randint(1000, 1100), 10 ** rng.randint(3, 18), rng.randint(0, 60)])
+        power(a, b)
+    return out
+
+
 def gen_ident_cases(rng, n):
     out = []
 
@@ -1140,6 +1205,7 @@ def cases(rng, ctx):
     else:
         n_fn, n_id, n_pv, n_rb, draws = 25 * s, 40 * s, 600 * s, 10 * s, 40
     out = gen_fn_cases(rng, n_fn) + gen_ident_cases(rng, n_id) + gen_pv_cases(rng, n_pv) + gen_rand_cases(rng, n_rb, draws)
+    out += gen_guard_cases(rng, 2000 if thorough else 40 * s)
     return out
 
 
@@ -1152,4 +1218,5 @@ def search(rng, ctx, disagreeing):
     if not names or 'PV' in names:
         out += gen_pv_cases(rng, 5000)
     out += gen_ident_cases(rng, 300)
+    out += gen_guard_cases(rng, 400)
     return out
